@@ -2,6 +2,6 @@ INIT Init
 NEXT Next
 CONSTANTS
   Boxes <- MCBoxes
-  R = 8
+  R = 7
 INVARIANTS Lemmas
 CHECK_DEADLOCK FALSE
